@@ -549,7 +549,7 @@ def rule_D(run, prog, routines):
     EVOLS = ("DensityMatrixEvolution", "ReducedDensityMatrixEvolution", "StateVectorEvolution")
     nflag = 0
     for c_ in sorted(prog.all_classes(), key=lambda c: c.qualname):
-        if c_.name not in EVOLS or ".tests." in c_.qualname:
+        if c_.name not in EVOLS + ("EvolutionSuperOperator",) or ".tests." in c_.qualname:
             continue
         conv = prog.find_method(c_, "convert_from_RWA")
         if conv is None:
